@@ -51,20 +51,21 @@ BINDING = ({"D_total": 1}, {"D_total": 2}, {"D_total": 2}, {"D_total": 3}, {"D_t
 def plan(tier):
     if tier == "thorough":
         return {"cases": 20000, "shards": 16, "budget_s": 800}
-    return {"cases": 2600, "shards": 8, "budget_s": 100}
+    return {"cases": 2000, "shards": 8, "budget_s": 100}
 
 
 def floors(tier):
-    k = 12 if tier == "thorough" else 1
-    return {"evaluations": 600 * k, "gauge_steps": 2500 * k, "steps_normalize_False": 900 * k, "state_comparisons": 2500 * k,
-            "isometry_checks": 2000 * k, "step:canonize_": 300 * k, "step:orthogonalize_site_": 300 * k,
-            "step:diagonalize_central_": 150 * k, "step:absorb_central_": 300 * k, "step:truncate_nonbinding": 150 * k,
-            "binding_truncations": 150 * k, "binding:truncate_": 60 * k, "binding:manual-sweep": 60 * k,
-            "identity:normalize=False": 40 * k, "identity:normalize=True": 40 * k, "cut_multiset_checks": 300 * k,
-            "cut_multiset_binding": 100 * k, "schmidt_cuts_compared": 800 * k, "entropies_compared": 300 * k,
-            "norm_compared": 150 * k, "start:ghz": 30 * k, "start:doubled": 30 * k, "start:sum-of-products": 30 * k,
-            "rank_deficient_cuts": 50 * k, "tie_cuts": 30 * k, "kind:mpo": 100 * k, "N=1": 20 * k, "N=2": 30 * k,
-            "must_reject": 20 * k}
+    """About a quarter of the counts seen on the unchanged tree (thorough: x6 for 10x the cases)."""
+    k = 6 if tier == "thorough" else 1
+    f = {"evaluations": 1000, "gauge_steps": 4000, "steps_normalize_False": 1700, "state_comparisons": 3600,
+         "isometry_checks": 8500, "step:canonize_": 1300, "step:orthogonalize_site_": 650, "step:diagonalize_central_": 350,
+         "step:absorb_central_": 600, "step:truncate_nonbinding": 250, "binding_truncations": 180, "binding:truncate_": 330,
+         "binding:manual-sweep": 330, "identity:normalize=False": 330, "identity:normalize=True": 330,
+         "cut_multiset_checks": 1200, "cut_multiset_binding": 160, "schmidt_cuts_compared": 1400, "entropies_compared": 1400,
+         "norm_compared": 300, "is_canonical_checked": 600, "final_to_tensor_crosschecks": 900, "start:ghz": 60,
+         "start:doubled": 75, "start:sum-of-products": 65, "start:random": 65, "rank_deficient_cuts": 45, "tie_cuts": 50,
+         "kind:mpo": 120, "N=1": 30, "N=2": 150, "N=6": 60, "must_reject": 100}
+    return {name: v * k for name, v in f.items()}
 
 
 class Stop(Exception):
